@@ -4,6 +4,7 @@ package main
 
 import (
 	"os"
+	"regexp"
 	"bufio"
 	"fmt"
 	"io"
@@ -749,6 +750,8 @@ func (p *SolverPool) note(kind string, secs float64) {
 	p.mu.Unlock()
 }
 
+var defRe = regexp.MustCompile(`(?m)^\(define-fun (t[0-9]+) \(\) (Bool|\(_ BitVec 64\)) (.*)\)$`)
+
 // runBatch discharges the obligations of b with the given solvers, in parallel chunks.
 func runBatch(b *Batch, solvers []string, capSec int, workers int) {
 	var pend []*Obligation
@@ -830,13 +833,19 @@ func runBatch(b *Batch, solvers []string, capSec int, workers int) {
 					for i, q := range jb.qs {
 						if sk == "z3new" || sk == "z3" {
 							// pure Bool / bit-vector query: bit-blast and hand it to the SAT core
-							qs[i] = strings.Replace(q, "<<CHECK>>", "(check-sat-using (then simplify bit-blast sat))", 1)
+							qs[i] = strings.Replace(q, "<<CHECK>>", "(check-sat-using (try-for (then simplify bit-blast sat) <<MS>>))", 1)
 						} else {
 							qs[i] = strings.Replace(q, "<<CHECK>>", "(check-sat)", 1)
 						}
 					}
 				}
-				runJob(jb.prelude, jb.obls, qs, sk, capSec, mvNames, &mu)
+				prelude := jb.prelude
+				if jb.propositional && (sk == "z3new" || sk == "z3") {
+					// z3 expands define-fun macros when a formula is asserted, which is pathologically slow on
+					// heavily shared DAGs; give it definitional constraints instead
+					prelude = defRe.ReplaceAllString(prelude, "(declare-const $1 $2)\n(assert (= $1 $3))")
+				}
+				runJob(prelude, jb.obls, qs, sk, capSec, mvNames, &mu)
 			}(jb, sk)
 		}
 	}
@@ -896,8 +905,25 @@ func runJob(prelude string, obls []*Obligation, qs []string, kind string, capSec
 	}
 	defer func() { s.Kill() }()
 	for i, o := range obls {
+		// portfolio: when another solver has already decided this obligation, this one only gets a
+		// short grace period (the verdicts are still compared when it answers in time)
+		thisCap := capSec
+		mu.Lock()
+		for k, r := range o.Results {
+			if k != kind && (r.Verdict == VSat || r.Verdict == VUnsat) {
+				g := int(3*r.Secs) + 5
+				if g < thisCap {
+					thisCap = g
+				}
+			}
+		}
+		mu.Unlock()
+		capCmd := fmt.Sprintf("(set-option :timeout %d)\n", thisCap*1000)
+		if kind == "cvc5" {
+			capCmd = fmt.Sprintf("(set-option :tlimit-per %d)\n", thisCap*1000)
+		}
 		t0 := time.Now()
-		lines, err := s.send(qs[i], time.Duration(capSec+20)*time.Second)
+		lines, err := s.send(capCmd+strings.Replace(qs[i], "<<MS>>", fmt.Sprint(thisCap*1000), 1), time.Duration(thisCap+20)*time.Second)
 		secs := time.Since(t0).Seconds()
 		var res QueryResult
 		res.Secs = secs
